@@ -35,7 +35,9 @@ RULE = ('history = up to 6 constant definitions (gin.constant over modules {a,b,
         'definitions over 2-4 names from {m,n,M,k_1,s/m,s/n,t/s/m,t/m,S/m} whose value is a '
         'literal, %macro (only to later names of the case order: no cycles), %constant-suffix, '
         '@counter() or (a third of the cases) an unevaluated @macro/gin.macro, bare or inside 1-3 '
-        'nested list/tuple/dict levels with up to two sibling values each; probe bindings (3 '
+        'nested list/tuple/dict levels with up to two sibling values each (dict levels include '
+        'the value as the single key, and displays whose 2-3 keys are different macros / '
+        'constants / tuples holding them); probe bindings (3 '
         'probes x 3 parameters) whose value is %macro, @macro/gin.macro(), %constant-suffix, the '
         'list of all unambiguous suffixes, or @macro/gin.macro, wrapped likewise; optional parse of '
         'an ambiguous suffix after each text; 0-2 gin.clear_config() calls before a quarter of '
@@ -78,6 +80,12 @@ ASSUMPTIONS = [
     'bindings made inside `with gin.unlock_config():` after a successful finalize, and through '
     'gin.bind_parameter("%name", value), are bindings like any other for "most recently bound"; '
     'once a finalize has succeeded no second finalize is made (it is documented to raise)',
+    'a dict display with several reference keys is generated only with keys that differ as '
+    'written (different macro names, different constants, different literals); what the consumer '
+    'receives is what Python builds from the evaluated keys in order (an evaluated key equal to '
+    'an earlier one keeps the earlier position and takes the later value)',
+    'gin.finalize(), accepted or rejected, is not a use: it must not run the counter '
+    'configurables that macros are bound to',
     'an include statement is in-place inclusion every time it is executed, however often the '
     'same file was included before',
     'gin.clear_config() (default clear_constants=False, documented to keep constants) empties '
@@ -113,7 +121,9 @@ FLOORS = {'nontrivial': (0.3, _H), 'nt:use-before-def': (0.15, _H),
           'interactive:block-left-by-exception': (0.1, _H),
           'interactive:duplicate-after-block-rejected': (0.05, _H),
           'lock:finalized-mid-history': (0.05, _H),
-          'lock:rebound-under-unlock-rechecked': (0.02, _H)}
+          'lock:rebound-under-unlock-rechecked': (0.02, _H),
+          'use:several-reference-keys-checked': (0.05, _H),
+          'finalize:counter-macros-not-evaluated': (0.1, _H)}
 TECHNIQUE = ('model-based property testing: Hypothesis-generated parse/define/use histories against '
              'a last-writer-wins reference map, identity checks for constants, plus an exhaustive '
              'sweep of ordered constant-name pairs')
@@ -186,7 +196,14 @@ def _hashable_node(node):
   """Can the parser put this node into a dict key (lists and dicts cannot be hashed)?"""
   if node[0] == 'tuple':
     return all(_hashable_node(x) for x in node[1])
-  return node[0] not in ('list', 'dict', 'dictk')
+  return node[0] not in ('list', 'dict', 'dictk', 'dictm')
+
+
+_keyref = st.one_of(_mac, _const, _macx, _mac, _unev)
+_keynode = st.one_of(
+    _keyref, _keyref,
+    st.tuples(st.just('tuple'), st.tuples(_keyref, _lit).map(list)).map(list),
+    _lit)
 
 
 @st.composite
@@ -197,10 +214,16 @@ def _wrap(draw, core, sibling):
     sibs = draw(st.lists(sibling, min_size=0, max_size=2))
     pos = draw(st.integers(0, len(sibs)))
     items = sibs[:pos] + [node] + sibs[pos:]
-    kind = draw(st.sampled_from(['list', 'tuple', 'dict', 'dictk']))
-    if kind == 'dictk' and not _hashable_node(node):
+    kind = draw(st.sampled_from(['list', 'tuple', 'dict', 'dictk', 'dictm']))
+    if kind in ('dictk', 'dictm') and not _hashable_node(node):
       kind = 'list'
-    if kind == 'dictk':
+    if kind == 'dictm':
+      # a dict display with several keys, two or more of them different macros / constants
+      more = draw(st.lists(st.tuples(_keynode, st.one_of(_lit, sibling)).map(list), min_size=1,
+                           max_size=2))
+      at = draw(st.integers(0, len(more)))
+      node = ['dictm', more[:at] + [[node, sibs[0] if sibs else ['i', 0]]] + more[at:]]
+    elif kind == 'dictk':
       # the value built so far becomes the single *key* of a dict
       node = ['dictk', node, sibs[0] if sibs else ['i', 0]]
     elif kind == 'dict':
@@ -342,6 +365,56 @@ def _exp_hashable(exp):
   return kind in ('lit', 'fresh', 'any')
 
 
+def _key_token(exp):
+  """What decides whether two evaluated dict keys are the same key (Python's own rule)."""
+  kind = exp[0]
+  if kind == 'lit':
+    return exp[1]
+  if kind == 'macro':
+    return _key_token(exp[2])
+  if kind == 'tuple':
+    return tuple(_key_token(x) for x in exp[1])
+  if kind == 'is':
+    try:
+      hash(exp[3])
+    except TypeError:
+      raise UnhashableKey(repr(exp[3]))
+    return exp[3]
+  if kind in ('fresh', 'any'):
+    return object()          # a fresh counter result / a function: equal to nothing else
+  raise UnhashableKey(kind)
+
+
+def _walk(node):
+  yield node
+  kind = node[0]
+  if kind in ('list', 'tuple'):
+    for x in node[1]:
+      yield from _walk(x)
+  elif kind == 'dict':
+    for _, x in node[1]:
+      yield from _walk(x)
+  elif kind == 'dictk':
+    yield from _walk(node[1])
+    yield from _walk(node[2])
+  elif kind == 'dictm':
+    for k, v in node[1]:
+      yield from _walk(k)
+      yield from _walk(v)
+
+
+def _key_sig(node):
+  """The macros and constants a concrete key node mentions."""
+  kind = node[0]
+  if kind in ('mac', 'macx', 'unev'):
+    return {('macro', node[1])}
+  if kind == 'const':
+    return {('const', node[2])}
+  if kind == 'tuple':
+    return set().union(*[_key_sig(x) for x in node[1]]) if node[1] else set()
+  return set()
+
+
 class Model:
   """Last writer wins, nothing else."""
 
@@ -418,6 +491,26 @@ class Model:
       if not _hashable_node(node[1]):
         raise OutOfDomain('unhashable dict key')
       return ('dictk', self.realise(node[1], owner), self.realise(node[2], owner))
+    if kind == 'dictm':
+      # keys must be different keys of the display as written: different macro names,
+      # different constants, different literals (an entry repeating one is dropped)
+      entries, seen_sig, seen_lit = [], set(), set()
+      for k, v in node[1]:
+        if not _hashable_node(k):
+          raise OutOfDomain('unhashable dict key')
+        ck = self.realise(k, owner)
+        sig = _key_sig(ck)
+        if sig:
+          if sig & seen_sig:
+            continue
+          seen_sig |= sig
+        else:
+          pure, val = _pure(ck)
+          if not pure or val in seen_lit:
+            continue
+          seen_lit.add(val)
+        entries.append((ck, self.realise(v, owner)))
+      return ('dictm', entries)
     raise OutOfDomain(f'unknown value node {kind!r}')
 
   def refs(self, node, depth=0, in_key=False):
@@ -434,6 +527,10 @@ class Model:
     elif kind == 'dictk':
       yield from self.refs(node[1], depth + 1, True)
       yield from self.refs(node[2], depth + 1, in_key)
+    elif kind == 'dictm':
+      for k, v in node[1]:
+        yield from self.refs(k, depth + 1, True)
+        yield from self.refs(v, depth + 1, in_key)
 
   def expected(self, node, chain=0):
     """Concrete node -> expectation tree under the current macro map."""
@@ -460,6 +557,15 @@ class Model:
         # Python itself raises TypeError for such a display; the property is silent
         raise UnhashableKey(render(node[1]))
       return ('dictk', key, self.expected(node[2], chain))
+    if kind == 'dictm':
+      # as Python builds it: entries in order; a key equal to an earlier one keeps the earlier
+      # key and position and takes the later value
+      built = {}
+      for k, v in node[1]:
+        ek, ev = self.expected(k, chain), self.expected(v, chain)
+        tok = _key_token(ek)
+        built[tok] = (built[tok][0] if tok in built else ek, ev)
+      return ('dictm', list(built.values()), len(node[1]))
     raise AssertionError(kind)
 
   def offenders(self):
@@ -498,6 +604,8 @@ def render(node):
     return '{' + ', '.join(repr(k) + ': ' + render(x) for k, x in node[1]) + '}'
   if kind == 'dictk':
     return '{' + render(node[1]) + ': ' + render(node[2]) + '}'
+  if kind == 'dictm':
+    return '{' + ', '.join(render(k) + ': ' + render(v) for k, v in node[1]) + '}'
   raise AssertionError(kind)
 
 
@@ -556,6 +664,15 @@ class Matcher:
       self.labels.add('use:dict-key-checked')
       self.match(exp[1], k, f'{path}<key>')
       self.match(exp[2], v, f'{path}<value>')
+    elif kind == 'dictm':
+      require(type(got) is dict and len(got) == len(exp[1]), 'macro-value',
+              lambda: f'{path}: received {got!r}, expected a dict with {len(exp[1])} entries '
+                      f'(the display has {exp[2]} different keys)')
+      if len(exp[1]) >= 2:
+        self.labels.add('use:several-reference-keys-checked')
+      for i, ((k, v), (ek, ev)) in enumerate(zip(got.items(), exp[1])):
+        self.match(ek, k, f'{path}<key {i}>')
+        self.match(ev, v, f'{path}<value {i}>')
     else:
       raise AssertionError(kind)
 
@@ -676,6 +793,12 @@ def _pure(node):
     if not all(p[0] for _, p in parts):
       return False, None
     return True, {k: p[1] for k, p in parts}
+  if kind in ('dictk', 'dictm'):
+    pairs = [(node[1], node[2])] if kind == 'dictk' else node[1]
+    parts = [(_pure(k), _pure(v)) for k, v in pairs]
+    if not all(pk[0] and pv[0] for pk, pv in parts):
+      return False, None
+    return True, {pk[1]: pv[1] for pk, pv in parts}
   return False, None
 
 
@@ -1015,12 +1138,22 @@ def check_case(case):
     def do_finalize(scope, when):
       """gin.finalize() against the model; True when it had to succeed (config now locked)."""
       offenders = model.offenders()
+      counts = dict(_COUNTS)
       try:
         with gin.config_scope(scope or None):
           gin.finalize()
         raised = None
       except Exception as e:  # pylint: disable=broad-except
         raised = e
+      # a macro bound to an evaluated reference is evaluated at every *use*; validating the
+      # configuration is not a use
+      require(_COUNTS == counts, 'finalize-evaluated-a-macro-reference',
+              lambda: f'{when}: finalize() ran the counter configurables: calls before {counts}, '
+                      f'after {_COUNTS}; macros: '
+                      f'{ {k: render(v) for k, v in sorted(model.macros.items())} }, bindings: '
+                      f'{ {PROBES[p_] + "." + a_: render(v) for (p_, a_), v in sorted(model.binds.items())} }')
+      if any(c[0] == 'ctr' for v in model.macros.values() for c in _walk(v)):
+        labels.add('finalize:counter-macros-not-evaluated')
       if scope:
         labels.add('finalize:inside-config-scope')
       if offenders:
